@@ -351,6 +351,70 @@ SRC_HEADER = {"vcfs": "##fileformat=VCFv4.2\n##source=c03\n#CHROM\tPOS\tID\tREF\
               "sam": "@HD\tVN:1.6\tSO:unsorted\n@SQ\tSN:c\tLN:1000\n"}
 
 
+VCF_KINDS = ("vcf", "vcfs", "vcf2")
+
+
+def g_header(rng, fmt):
+    """a header block of the format that differs from case to case: the header belongs to the file / to the table that
+    was read from it, not to the format or the process (several files of one format with different headers are read
+    and written in one worker process, and inside single cases: `prior`)"""
+    def w():
+        return rng.choice("abcdxyzQR") + "".join(rng.choice("abc019_") for _ in range(rng.choice([0, 1, 3, 6])))
+    if fmt in VCF_KINDS:
+        lines = ["##fileformat=VCFv4." + rng.choice("123")]
+        if rng.random() < 0.6:
+            lines.append("##source=" + w())
+        for _ in range(rng.choice([0, 0, 1, 2])):
+            lines.append(f"##contig=<ID={w()},length={rng.randrange(1, 10 ** 6)}>")
+        cols = "#CHROM\tPOS\tID\tREF\tALT\tQUAL\tFILTER\tINFO"
+        if fmt == "vcf2":
+            cols += "\tFORMAT" + "".join("\t" + w() for _ in range(N_SAMPLES))
+        return "\n".join(lines + [cols]) + "\n"
+    if fmt == "sam":
+        lines = ["@HD\tVN:1." + rng.choice("456") + "\tSO:" + rng.choice(["unsorted", "coordinate"])]
+        for _ in range(rng.choice([0, 1, 2])):
+            lines.append(f"@SQ\tSN:{w()}\tLN:{rng.randrange(1, 10 ** 6)}")
+        return "\n".join(lines) + "\n"
+    if fmt in ("fastq", "fasta", "fasta2"):
+        return ""
+    return "".join("#" + rng.choice(["", " ", "!"]) + w() + rng.choice(["", "\t" + w()]) + "\n"
+                   for _ in range(rng.choice([0, 1, 1, 2])))
+
+
+def _src_hdr(c):
+    return c["src_hdr"] if "src_hdr" in c else SRC_HEADER.get(c["fmt"], "")
+
+
+def g_prior(rng, fmt, own):
+    """another file of the same format with ANOTHER header, read lazily earlier in the same case and kept alive
+    (optionally also written once) -- or None"""
+    if rng.random() < 0.5:
+        return None
+    for _ in range(5):
+        h = g_header(rng, fmt)
+        if h != own:
+            return {"hdr": h, "write": rng.random() < 0.5}
+    return None
+
+
+def _open_prior(c, BT, d, body_rows):
+    """read the prior file lazily; returns (reader, table) to be kept alive by the caller"""
+    import bionumpy as bnp
+    pr = c.get("prior")
+    if not pr or not body_rows:
+        return None
+    fmt = c["fmt"]
+    path = os.path.join(d, "prior" + T[fmt][2])
+    with open(path, "wb") as fh:
+        fh.write((pr["hdr"] + ref_body(fmt, body_rows)).encode("latin1"))
+    r = bnp.open(path, buffer_type=BT)
+    t = r.read()
+    if pr.get("write"):
+        with bnp.open(os.path.join(d, "prior_out" + T[fmt][2]), "w", buffer_type=BT) as f:
+            f.write(t)
+    return r, t
+
+
 def _select(n, sel):
     idx = list(range(n))
     if "slice" in sel:
@@ -381,8 +445,13 @@ def rewrite_cases(tier, rng):
             n = rng.choice([1, 2, 3, 4, 6, 9])
             rows = [g_row(rng, fmt) for _ in range(n)]
             sels = [g_selection(rng, n) for _ in range(rng.choice([1, 2, 2, 3, 4]))]
-            yield {"op": "rewrite", "fmt": fmt, "rows": rows, "sel": sels,
-                   "how": rng.choice(["concat", "concat", "successive", "concat_twice"]), "gz": rng.random() < 0.25}
+            case = {"op": "rewrite", "fmt": fmt, "rows": rows, "sel": sels,
+                    "how": rng.choice(["concat", "concat", "successive", "concat_twice"]), "gz": rng.random() < 0.25,
+                    "src_hdr": g_header(rng, fmt)}
+            pr = g_prior(rng, fmt, case["src_hdr"])
+            if pr:
+                case["prior"] = pr
+            yield case
 
 
 REPLACE_FMTS = ["bed3", "bed6", "bdg", "narrowpeak", "gtf", "sam", "vcfs", "fastq", "sizes", "pairs"]
@@ -402,8 +471,12 @@ def replace_cases(tier, rng):
                     for r, q in zip(rows, new):
                         q[1] = "".join(rng.choice("ACGTN") for _ in r[1])
                         q[2] = [rng.randrange(0, 94) for _ in r[1]]
-                yield {"op": "replace", "fmt": fmt, "rows": rows, "field": j, "values": [q[j] for q in new],
-                       "lazy": rng.random() < 0.8, "gz": rng.random() < 0.2}
+                case = {"op": "replace", "fmt": fmt, "rows": rows, "field": j, "values": [q[j] for q in new],
+                        "lazy": rng.random() < 0.8, "gz": rng.random() < 0.2, "src_hdr": g_header(rng, fmt)}
+                pr = g_prior(rng, fmt, case["src_hdr"])
+                if pr:
+                    case["prior"] = pr
+                yield case
 
 
 def again_cases(tier, rng):
@@ -477,10 +550,11 @@ def _impl_rewrite(c):
     src = os.path.join(d, "src" + T[fmt][2])
     dst = os.path.join(d, "dst" + T[fmt][2] + (".gz" if c.get("gz") else ""))
     with open(src, "wb") as fh:
-        fh.write((SRC_HEADER.get(fmt, "") + ref_body(fmt, c["rows"])).encode("latin1"))
+        fh.write((_src_hdr(c) + ref_body(fmt, c["rows"])).encode("latin1"))
     if os.path.exists(dst):
         os.remove(dst)
     try:
+        prior = _open_prior(c, BT, d, c["rows"][:2])         # kept alive until the end of the case
         r = bnp.open(src, buffer_type=BT)
         try:
             data = r.read()                                  # lazy by default
@@ -503,6 +577,8 @@ def _impl_rewrite(c):
                         f.write(np.concatenate(pieces[:1]))
         finally:
             r.close()
+            if prior:
+                prior[0].close()
         raw = open(dst, "rb").read()
         return {"bytes": (gzip.decompress(raw) if c.get("gz") and raw else raw).decode("latin1")}
     except Exception as e:
@@ -520,10 +596,11 @@ def _impl_replace(c):
     src = os.path.join(d, "rsrc" + T[fmt][2])
     dst = os.path.join(d, "rdst" + T[fmt][2] + (".gz" if c.get("gz") else ""))
     with open(src, "wb") as fh:
-        fh.write((SRC_HEADER.get(fmt, "") + ref_body(fmt, c["rows"])).encode("latin1"))
+        fh.write((_src_hdr(c) + ref_body(fmt, c["rows"])).encode("latin1"))
     if os.path.exists(dst):
         os.remove(dst)
     try:
+        prior = _open_prior(c, BT, d, c["rows"][:2])         # kept alive until the end of the case
         r = bnp.open(src, buffer_type=BT) if c.get("lazy", True) else bnp.open(src, buffer_type=BT, lazy=False)
         try:
             data = r.read()
@@ -537,6 +614,8 @@ def _impl_replace(c):
                 f.write(data2)
         finally:
             r.close()
+            if prior:
+                prior[0].close()
         raw = open(dst, "rb").read()
         return {"bytes": (gzip.decompress(raw) if c.get("gz") and raw else raw).decode("latin1")}
     except Exception as e:
@@ -696,14 +775,14 @@ def oracle(c):
         order = [i for sel in c["sel"] for i in _select(n, sel)]
         if c["how"] == "concat_twice":
             order += _select(n, c["sel"][0])
-        return {"bytes": SRC_HEADER.get(fmt, "") + ref_body(fmt, [c["rows"][i] for i in order])}
+        return {"bytes": _src_hdr(c) + ref_body(fmt, [c["rows"][i] for i in order])}
     if c["op"] == "replace":
         rows2 = [list(r) for r in c["rows"]]
         for r, v in zip(rows2, c["values"]):
             r[c["field"]] = v
         if not _representable(fmt, rows2):
             return SKIP
-        return {"bytes": SRC_HEADER.get(fmt, "") + ref_body(fmt, rows2)}
+        return {"bytes": _src_hdr(c) + ref_body(fmt, rows2)}
     if c["op"] == "again":
         return {"bodies": [ref_body(fmt, c["rows"][a:b:st]) for a, b, st in c["steps"]], "unchanged": True}
     # a header (if the format has one) stands exactly once in front as soon as one write call was made
@@ -742,7 +821,7 @@ def _split_header(text, fmt=None):
 
 
 def _strip_src_header(fmt, text):
-    mark = {"vcfs": "#", "sam": "@"}.get(fmt)
+    mark = None if fmt in ("fastq", "fasta", "fasta2") else ("@" if fmt == "sam" else "#")
     if not mark:
         return "", text
     k = 0
